@@ -1,6 +1,8 @@
 package main
 
 import (
+	"golang.org/x/tools/go/cfg"
+
 	"go/ast"
 	"go/token"
 	"go/types"
@@ -119,6 +121,10 @@ func runC19(c *Ctx) {
 
 	// ---- R19e
 	checkExcludeLoops(c)
+
+	// ---- R19f
+	c.Rule("R19f", "exclusion side effects only for matching resources: in the filter callbacks of excludeT/excludeV a write to a captured collection (the sets of indexes / foreign keys to drop with an excluded column) is reachable only through an edge that establishes the pattern matched", 1)
+	checkFilterCallbacks(c)
 }
 
 func nestedSummary(a *FlowAnalysis) string {
@@ -590,4 +596,76 @@ func appendsLoopVar(info *types.Info, e ast.Expr, loop *ast.RangeStmt) bool {
 		}
 	}
 	return false
+}
+
+func checkFilterCallbacks(c *Ctx) {
+	n := 0
+	for _, name := range []string{"excludeT", "excludeV"} {
+		fi := c.Func("R19f", pSchema, "", name)
+		if fi == nil {
+			continue
+		}
+		info := fi.Info()
+		k := 0
+		ast.Inspect(fi.Decl.Body, func(m ast.Node) bool {
+			call, ok := m.(*ast.CallExpr)
+			if !ok || !funcIs(calleeOf(info, call), pSchema, "", "filter") || len(call.Args) != 2 {
+				return true
+			}
+			fl, ok := call.Args[1].(*ast.FuncLit)
+			if !ok {
+				return true
+			}
+			// writes to maps declared outside the callback
+			isCapturedWrite := func(nd ast.Node) bool {
+				hit := false
+				walkShallow(nd, func(q ast.Node) bool {
+					as, ok := q.(*ast.AssignStmt)
+					if !ok {
+						return true
+					}
+					for _, l := range as.Lhs {
+						ix, ok := l.(*ast.IndexExpr)
+						if !ok {
+							continue
+						}
+						if r := rootIdent(ix.X); r != nil {
+							if o := info.ObjectOf(r); o != nil && o.Pos() < fl.Pos() {
+								hit = true
+							}
+						}
+					}
+					return true
+				})
+				return hit
+			}
+			f := newFlow(info, fl.Body)
+			if len(f.find(isCapturedWrite)) == 0 {
+				return true
+			}
+			k++
+			n++
+			matched := func(b *cfg.Block, si int) bool {
+				return edgeImplies(b, si, func(e ast.Expr, val bool) bool {
+					id, ok := e.(*ast.Ident)
+					if !ok || !val {
+						return false
+					}
+					// the bool result of a Match call
+					if v, ok := info.ObjectOf(id).(*types.Var); ok {
+						if b, ok := v.Type().Underlying().(*types.Basic); ok && b.Kind() == types.Bool {
+							return true
+						}
+					}
+					return false
+				})
+			}
+			nd, found := f.reachEx([]point{f.entry()}, nil, isCapturedWrite, matched)
+			c.Check("R19f", "schema."+name+"|callback#"+itoa(k)+" side effects only after a match", nodePos(nd, fl.Pos()), !found, "the filter callback records resources to drop at %s on a path that did not establish that the pattern matched: indexes / foreign keys of columns that match no pattern are removed from the inspection result", c.nodeAt(nd))
+			return true
+		})
+	}
+	if n == 0 {
+		c.Unresolved("R19f", "filter callbacks with captured-collection writes in excludeT/excludeV")
+	}
 }
